@@ -16,7 +16,7 @@ TYPES = ['float', 'int', 'bool', 'str', 'enum']
 
 def plan(tier, seed):
     sp = [{'kind': 'weird'}]
-    sp += progwork.shards(tier, 1200, 20000, exhaustive=False)
+    sp += progwork.shards(tier, 1200, 60000, exhaustive=False)
     from hv import realwork
     return sp + realwork.shards('C12', tier)
 
